@@ -145,6 +145,7 @@ func main() {
 	vac := flag.Bool("vacuity", true, "add must-fail probes at every exit")
 	seed := flag.Int("seed", 0, "solver seed")
 	dump := flag.String("dump", "", "dump the query of the obligation with this name")
+	listFns := flag.Bool("list-functions", false, "list the SSA function names contracts can bind to")
 	flag.Parse()
 
 	t0 := time.Now()
@@ -152,6 +153,21 @@ func main() {
 	if err != nil {
 		fmt.Fprintln(os.Stderr, "govc: load:", err)
 		os.Exit(2)
+	}
+	if *listFns {
+		var ns []string
+		for n, f := range w.funcByName {
+			syn := ""
+			if f.Synthetic != "" {
+				syn = "  [" + f.Synthetic + "]"
+			}
+			ns = append(ns, n+syn)
+		}
+		sort.Strings(ns)
+		for _, n := range ns {
+			fmt.Println(n)
+		}
+		return
 	}
 	opts := &Options{Timeout: *timeout, Jobs: *jobs, KeepSMT: *keep, Verbose: *verbose, Vacuity: *vac, Seed: *seed}
 	var re *regexp.Regexp
